@@ -46,8 +46,14 @@ func VerifC03ClientReader() {
 	c03R.script = []msg.UDPPacket{{Content: zzverif.StringOf("c0", 4, "QUJD"), RemoteAddr: a}, {Content: zzverif.StringOf("c1", 4, "QUJD"), RemoteAddr: b}}
 	c03R.pos, c03R.readCh = 0, nil
 	want0, want1 := c03R.script[0].Content, c03R.script[1].Content
-	pxy := &UDPProxy{BaseProxy: &BaseProxy{baseCfg: &v1.ProxyBaseConfig{}, clientCfg: &v1.ClientCommonConfig{}}, cfg: &v1.UDPProxyConfig{}}
-	pxy.InWorkConn(&c01Conn{name: "work"}, nil)
+	if zzverif.Bool("sudp") {
+		pxy := &SUDPProxy{BaseProxy: &BaseProxy{baseCfg: &v1.ProxyBaseConfig{}, clientCfg: &v1.ClientCommonConfig{}}, cfg: &v1.SUDPProxyConfig{}, closeCh: make(chan struct{})}
+		pxy.InWorkConn(&c01Conn{name: "work"}, nil)
+		zzverif.Reach("C03.reader.sudp")
+	} else {
+		pxy := &UDPProxy{BaseProxy: &BaseProxy{baseCfg: &v1.ProxyBaseConfig{}, clientCfg: &v1.ClientCommonConfig{}}, cfg: &v1.UDPProxyConfig{}}
+		pxy.InWorkConn(&c01Conn{name: "work"}, nil)
+	}
 	zzverif.Quiesce()
 	zzverif.Assert(c03R.readCh != nil && len(c03R.readCh) == 2, "C03.reader.both-packets-forwarded")
 	if c03R.readCh == nil || len(c03R.readCh) != 2 {
